@@ -49,7 +49,9 @@ INL = ["aa", "Bb.", "`c d`", "`` `x` ``", "[l k](u)", '[l](<u v> "t")', "[l][r]"
        # appended later: legal but unusual spellings (CDATA sections and processing instructions were tried and left out: wrapped to a
        # line start they open an HTML block for CommonMark readers, the K-htmlblock finding, once per partner token)
        "[a](<>)", "[a]()", "[a][]", "[![i](u)](v)", "[a\\]b](u)", "<HTTP://U.V>", "a@b.cc", "mailto:a@b.cc", "&#x41;", "&nbsp;", "<br/>",
-       "**a*b*c**", "*a**b**c*", "`` ` ``", "[ ]", "www.a.b/c_d.", "http://a.b/c)", "**\u4e2d\u6587**abc"]
+       "**a*b*c**", "*a**b**c*", "`` ` ``", "[ ]", "www.a.b/c_d.", "http://a.b/c)", "**\u4e2d\u6587**abc",
+       # appended later: angle-bracket destinations that do not look like an HTML tag, parentheses in the destination, a title
+       "[l](<../u v/w.md>)", "![i](<./a b> 't u')", "[l](http://u.v/w_(x) \"t u\")", "[l k](<#a b>)"]
 INL_REPS = [INL.index(t) for t in ("aa", "Bb.", "`c d`", "[l k](u)", "[l][r]", "<http://u>", "www.u.v", "<b>", "*e", "f*", "**s**",
                                    "~~d~~", "\\*", "[l", "k](u)")]
 
